@@ -763,6 +763,10 @@ func report(prop, tier string, base uint64, t0 time.Time, ag *agg, infra []strin
 	exit := 0
 	seenClass := map[string]bool{}
 	nviol := 0
+	byClass := map[string][]fail{}
+	for _, f := range fails {
+		byClass[f.class] = append(byClass[f.class], f)
+	}
 	for _, f := range fails {
 		if seenClass[f.class] {
 			nviol++
@@ -770,13 +774,32 @@ func report(prop, tier string, base uint64, t0 time.Time, ag *agg, infra []strin
 		}
 		seenClass[f.class] = true
 		nviol++
-		worker := workerPlain
-		if f.r.Race {
-			worker = workerRace
+		// a failing run must reproduce alone before it is reported.  The system under test may
+		// make choices the seed does not control (a Go select with several ready cases, added
+		// by a change to the repository): then some failing runs of the class reproduce and
+		// others do not, so up to six are tried before giving up
+		var rp *Replay
+		ok := false
+		tried := 0
+		for _, cand := range byClass[f.class] {
+			if tried == 6 {
+				break
+			}
+			tried++
+			worker := workerPlain
+			if cand.r.Race {
+				worker = workerRace
+			}
+			if rp, ok = confirmAndShrink(prop, tier, worker, cand.r.Race, cand.r, cand.class, noShrink); ok {
+				f = cand
+				if tried > 1 {
+					rp.Shrunk += fmt.Sprintf("; %d earlier failing runs of this class did not reproduce alone: the tree under test is not a function of the seed here", tried-1)
+				}
+				break
+			}
 		}
-		rp, ok := confirmAndShrink(prop, tier, worker, f.r.Race, f.r, f.class, noShrink)
 		if !ok {
-			fmt.Fprintf(os.Stderr, "vcheck: INFRA: failure %s at seed %d (%s) did not reproduce on replay: simulator defect, not reported as a violation\n", f.class, f.r.Seed, f.r.Scenario)
+			fmt.Fprintf(os.Stderr, "vcheck: INFRA: failure %s at seed %d (%s) and %d more runs of that class did not reproduce on replay: simulator defect, not reported as a violation\n", f.class, f.r.Seed, f.r.Scenario, tried-1)
 			if exit == 0 {
 				exit = 2
 			}
@@ -930,6 +953,15 @@ func confirmAndShrink(prop, tier, worker string, race bool, r *Result, class str
 			}
 		}
 		note = fmt.Sprintf("shrunk from %d to %d choices in %d replays", len(tape), len(best), tries)
+		if tries > 0 {
+			// the minimised tape must fail the same way once more in a fresh process
+			if g, ok := check(best); ok {
+				bestRes = g
+			} else {
+				best, bestRes = tape, got
+				note = fmt.Sprintf("not shrunk: the minimised tape (%d replays) did not fail the same way a second time; the recorded tape is kept", tries)
+			}
+		}
 	}
 	return mkReplay(prop, r, bestRes, best, class, race, note), true
 }
